@@ -18,6 +18,7 @@ helper are checked on the returned arrays directly.
 import contextlib
 import io
 
+import copy
 import numpy as np
 
 from mc import runner
@@ -570,6 +571,7 @@ def run_classical(case, acc, cache=None):
     tol = TOL_CC if sname == "CCSD" else TOL_E
     prem = {"N": True, "Na": True, "Nb": True}
     is_tuple = isinstance(r1, (tuple, list))
+    first_copy = copy.deepcopy((r1, r2))      # for the second-call comparison at the end (the helpers below must not touch r1, r2)
     if nontrivial(mol, e, ref):
         acc.nt((name, ref, frozen, sname))
     acc.out((sname, round(e, 6)))
@@ -606,6 +608,19 @@ def run_classical(case, acc, cache=None):
         r1, r2 = np.asarray(r1), np.asarray(r2)
         check_rdms(cx, mol, I, "spatial", r1, r2, e, tol, prem, ferm_op=fop)
         check_padding(cx, mol, I, "spatial", r1, r2)
+    # the same solver asked again: the matrices it returns must be the ones it returned the first time (whatever the caller did
+    # with the first ones, e.g. padding them)
+    acc.ev()
+    try:
+        with quiet():
+            a1, a2 = s.get_rdm()
+        flat = lambda x: [np.asarray(y) for y in x] if isinstance(x, (tuple, list)) else [np.asarray(x)]
+        pairs = list(zip(flat(a1) + flat(a2), flat(first_copy[0]) + flat(first_copy[1])))
+        dmax = max([float(np.max(np.abs(x - y))) if x.shape == y.shape else float("inf") for x, y in pairs] + [0.0])
+        if dmax > 1e-9:
+            cx.bad("second-call-returns-different-matrices", {"max_abs_difference": dmax})
+    except Exception as ex:
+        cx.bad("second-call-raises", {"err": repr(ex)[:300]})
     if len(acc.samples) < 2:
         acc.sample({"case": case, "E_solver": e, "trace_rdm1": (complex(np.trace(r1)).real if not isinstance(r1, tuple)
                                                                  else [float(np.trace(x).real) for x in r1])})
